@@ -1366,7 +1366,7 @@ theorem groupvm_is_corevm_partial_merge_real (fuel : Nat) (s : CoreVM.VM) (f : C
     (hp : CoreVM.PlainSpec spec nm) (hargs : spec.args = []) (hint : CoreVM.internalEvents.contains nm = false)
     (hcl : ((OMap.lookup (f, uj.1) s.r.hx).getD {}).catchLabels.isEmpty = false) :
     ∃ s' i' x', CoreVM.advanceHeadFront (fuel + 5) [(f, uj.1)] s = .ok [(f, r)] s' ∧ CoreVM.FlowAt s' f i' x' cfg ∧
-      CoreVM.hview i' = [(r, pe + 4, CoreIndex.HeadStatus.active)] :=
+      CoreVM.hview i' = [(r, pe + 4, CoreIndex.HeadStatus.active)] ∧ s'.r.queue = s.r.queue :=
   CoreVM.and_group_merge_real fuel s f i x cfg l mu pe n fp r us ms j uj a spec nm F C hv hlen hndu hju hjm hone hfu hhx hleaf hmu hfp
     hstarted hq hclr hsz4 hc1 hc2 hp hargs hint hcl
 
@@ -1414,7 +1414,7 @@ theorem groupvm_is_corevm_partial_merge_real_or (fuel : Nat) (s : CoreVM.VM) (f 
     (hp : CoreVM.PlainSpec spec nm) (hargs : spec.args = []) (hint : CoreVM.internalEvents.contains nm = false)
     (hcl : ((OMap.lookup (f, uj.1) s.r.hx).getD {}).catchLabels.isEmpty = false) :
     ∃ s' i' x', CoreVM.advanceHeadFront (fuel + 5) [(f, uj.1)] s = .ok [(f, r)] s' ∧ CoreVM.FlowAt s' f i' x' cfg ∧
-      CoreVM.hview i' = [(r, pe + 3, CoreIndex.HeadStatus.active)] :=
+      CoreVM.hview i' = [(r, pe + 3, CoreIndex.HeadStatus.active)] ∧ s'.r.queue = s.r.queue :=
   CoreVM.or_group_merge_real fuel s f i x cfg l mu pe fp r us ms j uj spec nm F C hv hlen hndu hju hjm hone hfu hhx hleaf hmu hfp
     hstarted hq hclr hsz4 hc1 hc2 hp hargs hint hcl
 
@@ -1557,5 +1557,46 @@ example :=
     rfl rfl rfl rfl (by intro c hc; simp at hc; rcases hc with rfl | rfl <;> rfl) (by decide) (by decide)
     rfl (by intro o ho; simp [exInstStarted, exInst] at ho; rcases ho with rfl | rfl | rfl <;> decide)
     rfl rfl (by decide) rfl rfl ⟨rfl, rfl, rfl⟩ rfl (by decide) rfl
+
+/-- **groupvm_is_corevm_partial (`while heads_are_merging:` on an and-group).**  CoreVM's `mergeLoop` — `run_to_completion`'s merging
+    loop: drain the event queue, split the pending heads into MERGING and ACTIVE ones, call `_advance_head_front` with the MERGING ones,
+    repeat — started with the MERGING member head that phase 1 handed back (queue empty): one round calls the real function
+    (`groupvm_is_corevm_partial_merge_real`), the next round finds nothing MERGING and ends; the loop returns the forking head, the
+    only head left, ACTIVE on the marker behind the group — what `_resolve_action_conflicts` and the main loop get.  Any clause size. -/
+theorem groupvm_is_corevm_partial_merge_loop (fuel : Nat) (s : CoreVM.VM) (f : CoreIndex.FUid) (i : CoreIndex.Inst) (x : CoreVM.InstX)
+    (cfg : CoreVM.FlowCfg) (l mu : String) (pe n fp : Nat)
+    (r : CoreIndex.HUid) (us : List (CoreIndex.HUid × Nat)) (ms : List (Nat × MLoc)) (j : Nat) (uj : CoreIndex.HUid × Nat) (a : Nat)
+    (spec : CoreVM.Spec) (nm : String)
+    (F : CoreVM.FlowAt s f i x cfg) (C : CoreVM.ClauseShape cfg l mu pe n)
+    (hv : CoreVM.hview i = (r, fp, CoreIndex.HeadStatus.inactive) :: CoreVM.renderU (pe + 1) us ms)
+    (hlen : us.length = ms.length) (hndu : (r :: us.map (·.1)).Nodup)
+    (hju : us[j]? = some uj) (hjm : ms[j]? = some (a, MLoc.merging))
+    (hone : ∀ j' m', ms[j']? = some m' → j' ≠ j → m'.2 = MLoc.atWait ∨ m'.2 = MLoc.atMatch)
+    (hfu : OMap.lookup mu x.forkUids = some r)
+    (hhx : ((OMap.lookup (f, r) s.r.hx).getD {}).childHeadUids = us.map (·.1))
+    (hleaf : ∀ c ∈ us.map (·.1), ((OMap.lookup (f, c) s.r.hx).getD {}).childHeadUids = [])
+    (hmu : mu ∉ us.map (·.1)) (hfp : fp ≠ pe + 2)
+    (hstarted : i.status = .started) (hq : s.r.queue = []) (hclr : s.r.cleared.contains (f, uj.1) = false)
+    (hsz4 : pe + 4 < cfg.elements.size) (hc1 : cfg.elements[pe + 3]! = .catchFail none) (hc2 : cfg.elements[pe + 4]! = .sendOp spec)
+    (hp : CoreVM.PlainSpec spec nm) (hargs : spec.args = []) (hint : CoreVM.internalEvents.contains nm = false)
+    (hcl : ((OMap.lookup (f, uj.1) s.r.hx).getD {}).catchLabels.isEmpty = false) :
+    ∃ s' i' x', CoreVM.mergeLoop (fuel + 6) [(f, uj.1)] s = .ok [(f, r)] s' ∧ CoreVM.FlowAt s' f i' x' cfg ∧
+      CoreVM.hview i' = [(r, pe + 4, CoreIndex.HeadStatus.active)] :=
+  CoreVM.and_group_mergeLoop_real fuel s f i x cfg l mu pe n fp r us ms j uj a spec nm F C hv hlen hndu hju hjm hone hfu hhx hleaf hmu hfp
+    hstarted hq hclr hsz4 hc1 hc2 hp hargs hint hcl
+
+-- non-vacuity of `groupvm_is_corevm_partial_merge_loop`
+example :=
+  groupvm_is_corevm_partial_merge_loop 1 exVMMergingHit "m" { exInstMerging with status := .started } exXFork exCfgAndHit "e" "u" 13 2 2 "h0"
+    [("h1", 4), ("h2", 7)] [(0, .atWait), (1, .merging)] 1 ("h2", 7) 1 (exSpec "Hit") "Hit"
+    { hi := rfl, hx := rfl, hc := rfl } { hl := rfl, hsize := by decide, hw := rfl, hm := rfl } rfl rfl (by decide) rfl rfl
+    (by
+      intro j' m' h1 h2
+      rcases j' with _ | _ | j'
+      · simp at h1; subst h1; exact Or.inl rfl
+      · exact absurd rfl h2
+      · simp at h1)
+    rfl rfl (by intro c hc; simp at hc; rcases hc with rfl | rfl <;> rfl) (by decide) (by decide)
+    rfl rfl rfl (by decide) rfl rfl ⟨rfl, rfl, rfl⟩ rfl (by decide) rfl
 
 end NemoVerif.C07
